@@ -21,11 +21,11 @@ PLAN  = {"quick":    {"shards": 8, "parallel": 4, "cases": 24,   "timeout": 1500
 REQUIRED = ["oracle.rebuild-same", "oracle.inproc-chunked-same", "oracle.multiproc-same", "observed.multiproc-evaluations",
             "observed.runs-with-2+-worker-pids", "observed.arrival-orders", "oracle.multiproc-after-earlier-run",
             "observed.cases-with-experiment-seed-0", "observed.cases-with-materialized-environments",
-            "observed.cases-with-midstream-generator-learner-listed-once"]
+            "observed.cases-with-midstream-generator-learner-listed-once", "observed.cases-with-an-environment-without-interactions"]
 ASSUMPTIONS = ["only deterministic picklable components; timing columns excluded", "processes <= 6",
                "seed=None (time seeded) filters are not generated"]
 
-def gen_case(rng, force_seed0=False, force_materialized=False, force_partial_cache=False, force_rnginit=False):
+def gen_case(rng, force_seed0=False, force_materialized=False, force_partial_cache=False, force_rnginit=False, force_empty_env=False):
     spec = X.gen_spec(rng)
     if force_partial_cache:
         # a cached environment longer than one cache slice (25), read in part by a later stage, evaluated by several learners
@@ -53,6 +53,13 @@ def gen_case(rng, force_seed0=False, force_materialized=False, force_partial_cac
                 spec["triples"] = [[r2.random(), r2.randrange(n), r2.randrange(len(spec["vals"]))] for _ in range(r2.randint(1, 4))] + [[r2.random(), n, 0]]
         else:
             spec["triples"].insert(r2.randrange(len(spec["triples"]) + 1), [r2.random(), n, r2.randrange(len(spec["vals"]))])
+    if force_empty_env or (spec["triples"] == "cross" and r2.random() < .15):
+        # an environment without interactions (a strict take of more than there is) behind a chunk() prefix, evaluated -- among others --
+        # by an evaluator that records a row for every evaluation it is asked for
+        spec["groups"].append({"kind": "lambda", "n": 6, "seed": 3, "tag": f"g{len(spec['groups']) + 5}",
+                               "filters": [["chunk"]] + ([["shuffle_n", 2]] if r2.random() < .5 else []) + [["take_strict", 50]]})
+        spec["vals"].append({"kind": "rec-sum", "tag": f"V{len(spec['vals'])}", "seed": 1, "nrows": 3})
+        spec["triples"] = "cross"
     cfgs = []
     cfgs.append([1, 0, rng.choice([1, 2, 3, 5])])                     # in-process, chunks split
     for _ in range(3):
@@ -138,7 +145,8 @@ def run_shard(ctx):
     workdir = tempfile.mkdtemp(prefix=f"vf-c01-{ctx.shard}-")
     try:
         for i in range(ctx.n):
-            case = gen_case(ctx.rng, force_seed0=(i == 0), force_materialized=(i == 1), force_partial_cache=(i == 2), force_rnginit=(i == 1 and ctx.shard % 2 == 1))
+            case = gen_case(ctx.rng, force_seed0=(i == 0), force_materialized=(i == 1), force_partial_cache=(i == 2), force_rnginit=(i == 1 and ctx.shard % 2 == 1), force_empty_env=(i == 0 and ctx.shard % 2 == 0))
+            if any(f[0] == "take_strict" for g in case["spec"]["groups"] for f in g["filters"]): ctx.count("observed.cases-with-an-environment-without-interactions")
             if _once_rnginit(case["spec"]): ctx.count("observed.cases-with-midstream-generator-learner-listed-once")
             if any(f[0] == "materialize" for g in case["spec"]["groups"] for f in g["filters"]): ctx.count("observed.cases-with-materialized-environments")
             if case["spec"]["seed"] == 0: ctx.count("observed.cases-with-experiment-seed-0")
